@@ -167,79 +167,7 @@ func runC14(c *Ctx) {
 		c.verdict(okArgs, c.nm(fi)+" | the batches written are the function's own arguments", c.P.Pos(fi.Pos()), "blockHeaders / filterHeaders passed through", "a store is written with something other than the batch handed in")
 	})
 
-	c.rule("C14.G2", "processBatch writes only consistent batches: equal batch lengths in block+filter mode, tip-height agreement when only filter headers are appended; appendNewHeaders re-checks the context before every batch and stops at the first error", func() {
-		fn := c.fn(fnProcB)
-		w := find(fn, callTo(hi("writeHeadersToTargetStores")))
-		// len(blockHeaders) != len(filterHeaders) comparison
-		var lenCmp []ssa.Instruction
-		ir.Instrs(fn, func(in ssa.Instruction) {
-			b, ok := in.(*ssa.BinOp)
-			if !ok {
-				return
-			}
-			cx, okx := b.X.(*ssa.Call)
-			cy, oky := b.Y.(*ssa.Call)
-			if okx && oky && isBuiltin("len")(cx) && isBuiltin("len")(cy) {
-				lenCmp = append(lenCmp, in)
-			}
-		})
-		g := equalIs("len(blockHeaders) vs len(filterHeaders)", lenCmp, true)
-		// applies only in appendBlockAndFilter mode: effect = the write reached through that mode's branch;
-		// evaluate on the failure edge instead: from the mismatch edge no write is reachable
-		c.guarded(fn, g, 1, "writeHeadersToTargetStores", w, 1, gFailEdge)
-		// block+filter mode: every filter batch written carries the block hash of
-		// its last entry (it becomes the filter store's tip pointer), not only the
-		// final batch of the region
-		setLast := c.funcObj("chainimport", "setLastFilterHeaderHash")
-		var modeCmps []ssa.Instruction
-		ir.Instrs(fn, func(in ssa.Instruction) {
-			b, ok := in.(*ssa.BinOp)
-			if !ok || b.Op != token.EQL || !isParam(fn, len(fn.Params)-1)(b.X) {
-				return
-			}
-			if k, isC := ir.ConstInt(b.Y); isC && k == c.importConst("appendBlockAndFilter") {
-				modeCmps = append(modeCmps, in)
-			}
-		})
-		gm := equalIs("appendMode vs appendBlockAndFilter", modeCmps, true)
-		var badW []string
-		for _, st := range c.successEdges(gm) {
-			ir.Walk(st.b, st.idx, nil, func(in ssa.Instruction) bool {
-				if callTo(setLast)(in) {
-					return false
-				}
-				for _, x := range w {
-					if x == in {
-						badW = append(badW, c.at(in))
-					}
-				}
-				return true
-			})
-		}
-		c.verdict(len(gm.sites) >= 1 && len(badW) == 0, c.nm(fn)+" | block+filter mode: setLastFilterHeaderHash precedes every write", c.P.Pos(fn.Pos()), "each written filter batch names the block of its last entry", "in block+filter mode a batch can be written without setLastFilterHeaderHash (write at "+join(badW)+"): the filter store's tip pointer is then a zero hash until a later batch repairs it, so an import that stops in between leaves the filter store unreadable")
-		tip := c.method("headerfs", "BlockHeaderStore", "ChainTip")
-		fh := c.field("headerfs", "FilterHeader", "Height")
-		hc := find(fn, binops(eqOps, func(v ssa.Value) bool { return ir.DerivesFrom(v, valIsCallTo(tip)) }, loadsField(fh)))
-		c.guarded(fn, equalIs("block tip height vs last filter header height", hc, true), 1, "writeHeadersToTargetStores", w, 1, gFailEdge)
-		c.guarded(fn, errNil("TargetBlockHeaderStore.ChainTip", find(fn, callTo(tip)), 2), 1, "writeHeadersToTargetStores", w, 1, gFailEdge)
-		c.nilReturnsGuarded(fn, errNil("writeHeadersToTargetStores", w, 0), 1)
-		// appendNewHeaders
-		fa := c.fn(fnAppendNH)
-		cancelled := c.funcObj("chainimport", "ctxCancelled")
-		pb := find(fa, callTo(hi("processBatch")))
-		c.guarded(fa, errNil("ctxCancelled(ctx)", find(fa, callTo(cancelled)), 0), 1, "processBatch", pb, 1, gDominate)
-		// both iterators span the same source range
-		iter := c.method("chainimport", "HeaderImportSource", "Iterator")
-		its := find(fa, callTo(iter))
-		okSame := len(its) == 2
-		if okSame {
-			a, b := argsOf(its[0]), argsOf(its[1])
-			okSame = a[0] == b[0] && a[1] == b[1]
-			conv := c.funcObj("chainimport", "targetHeightToImportSourceIndex")
-			okSame = okSame && valIsCallTo(conv)(a[0]) && valIsCallTo(conv)(a[1])
-		}
-		c.verdict(okSame, c.nm(fa)+" | block and filter iterators cover the same converted index range", c.P.Pos(fa.Pos()), "same (sourceStartIdx, sourceEndIdx) from targetHeightToImportSourceIndex", "the two import iterators do not cover the same index range derived from the region's heights", c.ats(its)...)
-	})
+	c.rule("C14.G2", consistentBatchesDoc, func() { c.consistentBatches() })
 	c.rule("C14.G3", "an overlapping file is compared with the stores at both ends of the overlap: in validateChainContinuity, once the header pair at the start of the overlap was verified, success is reachable only through a verified pair at the end of the overlap (block and filter header, verifyBlockAndFilter) or through the edge where the overlap is a single height; the end of the overlap is min(effective tip, import end)", func() {
 		fn := c.fn("(*chainimport.headersImport).validateChainContinuity")
 		ver := hi("verifyHeadersAtTargetHeight")
@@ -455,4 +383,93 @@ func (c *Ctx) importConst(name string) int64 {
 	}
 	v, _ := constant.Int64Val(k.Val())
 	return v
+}
+
+// importConstIn: integer value of a package-level constant.
+func (c *Ctx) importConstIn(pkg, name string) int64 {
+	k, ok := c.P.Pkg(pkg).Scope().Lookup(name).(*types.Const)
+	if !ok {
+		panic(anchorErr{"const " + pkg + "." + name})
+	}
+	v, _ := constant.Int64Val(k.Val())
+	return v
+}
+
+const consistentBatchesDoc = "processBatch writes only consistent batches: equal batch lengths in block+filter mode, tip-height agreement when only filter headers are appended; appendNewHeaders re-checks the context before every batch and stops at the first error"
+
+// consistentBatches: see consistentBatchesDoc.
+func (c *Ctx) consistentBatches() {
+	hi := func(m string) *types.Func { return c.method("chainimport", "headersImport", m) }
+	_ = hi
+	fn := c.fn(fnProcB)
+	w := find(fn, callTo(hi("writeHeadersToTargetStores")))
+	// len(blockHeaders) != len(filterHeaders) comparison
+	var lenCmp []ssa.Instruction
+	ir.Instrs(fn, func(in ssa.Instruction) {
+		b, ok := in.(*ssa.BinOp)
+		if !ok {
+			return
+		}
+		cx, okx := b.X.(*ssa.Call)
+		cy, oky := b.Y.(*ssa.Call)
+		if okx && oky && isBuiltin("len")(cx) && isBuiltin("len")(cy) {
+			lenCmp = append(lenCmp, in)
+		}
+	})
+	g := equalIs("len(blockHeaders) vs len(filterHeaders)", lenCmp, true)
+	// applies only in appendBlockAndFilter mode: effect = the write reached through that mode's branch;
+	// evaluate on the failure edge instead: from the mismatch edge no write is reachable
+	c.guarded(fn, g, 1, "writeHeadersToTargetStores", w, 1, gFailEdge)
+	// block+filter mode: every filter batch written carries the block hash of
+	// its last entry (it becomes the filter store's tip pointer), not only the
+	// final batch of the region
+	setLast := c.funcObj("chainimport", "setLastFilterHeaderHash")
+	var modeCmps []ssa.Instruction
+	ir.Instrs(fn, func(in ssa.Instruction) {
+		b, ok := in.(*ssa.BinOp)
+		if !ok || b.Op != token.EQL || !isParam(fn, len(fn.Params)-1)(b.X) {
+			return
+		}
+		if k, isC := ir.ConstInt(b.Y); isC && k == c.importConst("appendBlockAndFilter") {
+			modeCmps = append(modeCmps, in)
+		}
+	})
+	gm := equalIs("appendMode vs appendBlockAndFilter", modeCmps, true)
+	var badW []string
+	for _, st := range c.successEdges(gm) {
+		ir.Walk(st.b, st.idx, nil, func(in ssa.Instruction) bool {
+			if callTo(setLast)(in) {
+				return false
+			}
+			for _, x := range w {
+				if x == in {
+					badW = append(badW, c.at(in))
+				}
+			}
+			return true
+		})
+	}
+	c.verdict(len(gm.sites) >= 1 && len(badW) == 0, c.nm(fn)+" | block+filter mode: setLastFilterHeaderHash precedes every write", c.P.Pos(fn.Pos()), "each written filter batch names the block of its last entry", "in block+filter mode a batch can be written without setLastFilterHeaderHash (write at "+join(badW)+"): the filter store's tip pointer is then a zero hash until a later batch repairs it, so an import that stops in between leaves the filter store unreadable")
+	tip := c.method("headerfs", "BlockHeaderStore", "ChainTip")
+	fh := c.field("headerfs", "FilterHeader", "Height")
+	hc := find(fn, binops(eqOps, func(v ssa.Value) bool { return ir.DerivesFrom(v, valIsCallTo(tip)) }, loadsField(fh)))
+	c.guarded(fn, equalIs("block tip height vs last filter header height", hc, true), 1, "writeHeadersToTargetStores", w, 1, gFailEdge)
+	c.guarded(fn, errNil("TargetBlockHeaderStore.ChainTip", find(fn, callTo(tip)), 2), 1, "writeHeadersToTargetStores", w, 1, gFailEdge)
+	c.nilReturnsGuarded(fn, errNil("writeHeadersToTargetStores", w, 0), 1)
+	// appendNewHeaders
+	fa := c.fn(fnAppendNH)
+	cancelled := c.funcObj("chainimport", "ctxCancelled")
+	pb := find(fa, callTo(hi("processBatch")))
+	c.guarded(fa, errNil("ctxCancelled(ctx)", find(fa, callTo(cancelled)), 0), 1, "processBatch", pb, 1, gDominate)
+	// both iterators span the same source range
+	iter := c.method("chainimport", "HeaderImportSource", "Iterator")
+	its := find(fa, callTo(iter))
+	okSame := len(its) == 2
+	if okSame {
+		a, b := argsOf(its[0]), argsOf(its[1])
+		okSame = a[0] == b[0] && a[1] == b[1]
+		conv := c.funcObj("chainimport", "targetHeightToImportSourceIndex")
+		okSame = okSame && valIsCallTo(conv)(a[0]) && valIsCallTo(conv)(a[1])
+	}
+	c.verdict(okSame, c.nm(fa)+" | block and filter iterators cover the same converted index range", c.P.Pos(fa.Pos()), "same (sourceStartIdx, sourceEndIdx) from targetHeightToImportSourceIndex", "the two import iterators do not cover the same index range derived from the region's heights", c.ats(its)...)
 }
